@@ -235,7 +235,9 @@ func (s *scanner) ws() {
 	}
 }
 
-func (s *scanner) has(t string) bool { return s.p+len(t) <= len(s.b) && string(s.b[s.p:s.p+len(t)]) == t }
+func (s *scanner) has(t string) bool {
+	return s.p+len(t) <= len(s.b) && string(s.b[s.p:s.p+len(t)]) == t
+}
 
 func (s *scanner) regular() string {
 	st := s.p
